@@ -11,6 +11,8 @@
 //!   scommit <funding/txid/htlc,…|-> …             update_counterparty_commitment_data: one commitment transaction per scope
 //!   sreneg <funding/txid/htlcs>                   renegotiated_funding
 //!   spromote <funding>                            promote_funding
+//!   sverify <funding/txid/htlcs/number/point/feerate> …   verify_matching_commitment_transactions asked (read-only hook) about the last
+//!                    real update's versions and about copies in which ONE attribute of ONE version differs → `ok` | `err <message>`
 //!   sdump            → every scope's stored lists (non-dust HTLCs with their output index), compared with hook verif_scope_claimables
 //!   sconfirm <funding> <txid> <sat,…>  → the HTLC outputs claimed when that commitment confirms (htlcClaims over the scope's stored list)
 //! Implementation oracles (no model): every stored list of every scope equals the non-dust HTLC list of THAT scope's own commitment
@@ -35,22 +37,28 @@ fn htok(h: &H) -> String { format!("{}:{}:{}:{}", h.0, h.1 as u8, h.2, h.3.map(|
 fn dash(v: Vec<String>, sep: &str) -> String { if v.is_empty() { "-".into() } else { v.join(sep) } }
 
 #[derive(Default)]
-struct Intern { ids: BTreeMap<Txid, usize> }
-impl Intern { fn id(&mut self, t: &Txid) -> usize { let n = self.ids.len() + 1; *self.ids.entry(*t).or_insert(n) } }
+struct Intern { ids: BTreeMap<Txid, usize>, pts: BTreeMap<[u8; 33], usize> }
+impl Intern {
+	fn id(&mut self, t: &Txid) -> usize { let n = self.ids.len() + 1; *self.ids.entry(*t).or_insert(n) }
+	fn pt(&mut self, p: &[u8; 33]) -> usize { let n = self.pts.len() + 1; *self.pts.entry(*p).or_insert(n) }
+}
 
-struct CTx { funding: Txid, txid: Txid, htlcs: Vec<H> }
+struct CTx { funding: Txid, txid: Txid, htlcs: Vec<H>, num: u64, point: [u8; 33], feerate: u32 }
 fn ctx_of(ct: &CommitmentTransaction) -> CTx {
 	let t = ct.trust();
 	let tx = &t.built_transaction().transaction;
-	CTx { funding: tx.input[0].previous_output.txid, txid: t.txid(), htlcs: ct.nondust_htlcs().iter().map(|h| (h.amount_msat, h.offered, h.cltv_expiry, h.transaction_output_index)).collect() }
+	CTx { funding: tx.input[0].previous_output.txid, txid: t.txid(), htlcs: ct.nondust_htlcs().iter().map(|h| (h.amount_msat, h.offered, h.cltv_expiry, h.transaction_output_index)).collect(),
+		num: ct.commitment_number(), point: ct.per_commitment_point().serialize(), feerate: ct.negotiated_feerate_per_kw() }
 }
-fn ctx_tok(c: &CTx, it: &mut Intern) -> String { format!("{}/{}/{}", it.id(&c.funding), it.id(&c.txid), dash(c.htlcs.iter().map(htok).collect(), ",")) }
+fn ctx_tok(c: &CTx, it: &mut Intern) -> String { format!("{}/{}/{}/{}/{}/{}", it.id(&c.funding), it.id(&c.txid), dash(c.htlcs.iter().map(htok).collect(), ","), c.num, it.pt(&c.point), c.feerate) }
 
 /// the victim's real monitor updates as model ops, collected incrementally (`poll` after every phase: `counterparty_commitment_txs_from_update`
 /// rebuilds a `LatestCounterpartyCommitmentTXInfo` transaction from the monitor's CURRENT locked funding and debug-asserts that nothing is pending)
-struct Replayer { consumed: usize, started: bool, scopes: usize, ops: Vec<String>, seen: HashMap<(Txid, Txid), Vec<H>> }
+struct Replayer { consumed: usize, started: bool, scopes: usize, ops: Vec<String>, seen: HashMap<(Txid, Txid), Vec<H>>,
+	/// the transactions (one per scope) of the last and of the one-before-last counterparty commitment update
+	last: Vec<CommitmentTransaction>, before_last: Vec<CommitmentTransaction> }
 impl Replayer {
-	fn new() -> Self { Replayer { consumed: 0, started: false, scopes: 1, ops: vec![], seen: HashMap::new() } }
+	fn new() -> Self { Replayer { consumed: 0, started: false, scopes: 1, ops: vec![], seen: HashMap::new(), last: vec![], before_last: vec![] } }
 	fn poll(&mut self, node: &Node, chan: ChannelId, first_funding: Txid, splice_funding: Option<Txid>, it: &mut Intern) -> Result<(), String> {
 		let mon = node.chain_monitor.chain_monitor.get_monitor(chan).map_err(|_| "no victim monitor")?;
 		if !self.started {
@@ -67,7 +75,8 @@ impl Replayer {
 				"CounterpartyCommitmentTXInfo" | "CounterpartyCommitment" => {
 					let n = if k == "CounterpartyCommitment" { self.scopes } else { 1 };
 					if ti + n > txs.len() { return Err("counterparty commitment step without its transactions".into()); }
-					let cs: Vec<CTx> = txs[ti..ti + n].iter().map(ctx_of).collect(); ti += n;
+					let cs: Vec<CTx> = txs[ti..ti + n].iter().map(ctx_of).collect();
+					self.before_last = std::mem::replace(&mut self.last, txs[ti..ti + n].to_vec()); ti += n;
 					self.ops.push(format!("scommit {}", cs.iter().map(|c| ctx_tok(c, it)).collect::<Vec<_>>().join(" ")));
 					for c in cs { self.seen.insert((c.funding, c.txid), c.htlcs); }
 				},
@@ -112,6 +121,44 @@ fn dump(node: &Node, chan: ChannelId, it: &mut Intern, seen: &HashMap<(Txid, Txi
 	}
 	Ok((toks.join(" "), fails))
 }
+
+/// round 6 — verify_matching_commitment_transactions' cross-version comparisons: the victim's REAL monitor (read-only hook
+/// verif_verify_matching_commitment_transactions) is asked about the versions of the last real counterparty commitment update (one per
+/// FundingScope, >= 2 while a splice / RBF candidate is pending) and about copies in which ONE attribute of ONE version is altered
+/// (hook CommitmentTransaction::verif_with_attrs: number, per-commitment point, feerate, an HTLC dropped, an HTLC amount), the versions
+/// swapped, one version missing.  Model op `sverify`; implementation oracle (no model): versions that differ are REFUSED.
+fn verify_probes(node: &Node, chan: ChannelId, rp: &Replayer, it: &mut Intern, seed: u64, out: &mut Out, plan: &str) -> Result<(), String> {
+	let n = rp.last.len();
+	if n < 2 || n != rp.scopes { return Ok(()); }
+	let mon = node.chain_monitor.chain_monitor.get_monitor(chan).map_err(|_| "no victim monitor")?;
+	let mut rng = Rng::new(seed ^ 0x0c06_5eed_0006);
+	let k = rng.below(n as u64) as usize;	// the altered version (0 = the locked scope's)
+	let base = &rp.last;
+	let other_point = rp.before_last.first().map(|c| c.per_commitment_point());
+	let with = |f: &dyn Fn(&CommitmentTransaction) -> CommitmentTransaction| { let mut v = base.clone(); v[k] = f(&base[k]); v };
+	let mut cases: Vec<(String, Vec<CommitmentTransaction>, bool)> = vec![("nothing".into(), base.clone(), false)];
+	let dn = 1 + rng.below(3);
+	cases.push(("the commitment number".into(), with(&|c| c.verif_with_attrs(Some(if rng_bit(seed, 1) { c.commitment_number() - dn } else { c.commitment_number() + dn }), None, None, false, None)), true));
+	if let Some(p) = other_point { if p != base[k].per_commitment_point() { cases.push(("the per-commitment point".into(), with(&|c| c.verif_with_attrs(None, Some(p), None, false, None)), true)); } }
+	cases.push(("the feerate".into(), with(&|c| c.verif_with_attrs(None, None, Some(if rng_bit(seed, 2) { c.negotiated_feerate_per_kw() + 1 } else { c.negotiated_feerate_per_kw() - 1 }), false, None)), true));
+	if !base[k].nondust_htlcs().is_empty() {
+		cases.push(("the number of non-dust HTLCs".into(), with(&|c| c.verif_with_attrs(None, None, None, true, None)), true));
+		let a = base[k].nondust_htlcs()[0].amount_msat;
+		cases.push(("the amount of the first non-dust HTLC".into(), with(&|c| c.verif_with_attrs(None, None, None, false, Some(if rng_bit(seed, 3) { a + 1 } else { a - 1 }))), true));
+	}
+	{ let mut v = base.clone(); v.swap(0, n - 1); cases.push(("the funding each version spends (versions swapped)".into(), v, true)); }
+	{ let mut v = base.clone(); v.pop(); cases.push(("the number of versions (one missing)".into(), v, true)); }
+	for (what, txs, differs) in cases {
+		let res = mon.verif_verify_matching_commitment_transactions(&txs);
+		let ans = match res { Ok(()) => "ok".to_string(), Err(e) => format!("err {}", e.replace(' ', "_")) };
+		if differs && res.is_ok() { out.oracle.push(format!("verify_matching_commitment_transactions ACCEPTS counterparty commitment versions (one per funding scope) that differ in {} (version {} of {} altered; versions [{}]): the data stored for the pending funding would belong to another commitment than the locked funding's — one revocation secret no longer punishes every version {}", what, k, n, txs.iter().map(|c| ctx_tok(&ctx_of(c), it)).collect::<Vec<_>>().join(" "), plan)); }
+		if !differs && res.is_err() { out.oracle.push(format!("verify_matching_commitment_transactions refuses the unaltered versions of the last real update: {} {}", ans, plan)); }
+		let class = format!("scope:verify({} versions):{}", n, if differs { ans.clone() } else { "unaltered:".to_string() + &ans });
+		out.lines.push((format!("sverify {}", txs.iter().map(|c| ctx_tok(&ctx_of(c), it)).collect::<Vec<_>>().join(" ")), Some(ans), class));
+	}
+	Ok(())
+}
+fn rng_bit(seed: u64, i: u32) -> bool { (seed >> (7 + i)) & 1 == 1 }
 
 thread_local! { /// 0 = channel set-up and splice negotiation, 1 = everything after the splice transaction exists
 	static PHASE: std::cell::Cell<u8> = std::cell::Cell::new(0);
@@ -192,6 +239,7 @@ pub fn scenario(seed: u64, index: u64) -> Result<Out, String> {
 		for o in rp.ops.drain(..) { out.lines.push((o, None, String::new())); }
 		out.lines.push(("sdump".into(), Some(ans), "scope:dump-while-splice-pending".into()));
 		out.oracle.extend(fails);
+		verify_probes(&nodes[victim], chan, &rp, &mut it, seed, &mut out, &plan)?;
 	}
 	let first_candidate = splice_tx.clone();
 	let (splice_tx, splice_funding) = if rbf {
@@ -215,6 +263,7 @@ pub fn scenario(seed: u64, index: u64) -> Result<Out, String> {
 		for o in rp.ops.drain(..) { out.lines.push((o, None, String::new())); }
 		out.lines.push(("sdump".into(), Some(ans), "scope:dump-with-two-pending-scopes(rbf)".into()));
 		out.oracle.extend(fails);
+		verify_probes(&nodes[victim], chan, &rp, &mut it, seed ^ 0x77, &mut out, &plan)?;
 		(rbf_tx, id)
 	} else { (splice_tx, splice_funding) };
 	if lock {
